@@ -60,16 +60,22 @@ Theorem proto_decode_total : forall (S : schema) m b fuel, (length b <= fuel)%na
 Proof. exact decode_fuel_irrelevant_l. Qed.
 Print Assumptions proto_decode_total.
 
-(* Fixed point, PARTIAL: for whatever decodes, Marshal(Unmarshal(b)) re-decodes and re-encodes to
-   itself — under the hypothesis that the decoded value is canonical after normalisation.  That
-   hypothesis (an invariant of the decoder: shapes, ranges, at most one member per oneof) is not
-   proved here; Harness.check_case evaluates it on every decoded case of every run. *)
-Theorem proto_decode_fixpoint_partial : forall (S : schema), wf_schema S = true ->
-  forall m b v, decode S m b = Some v ->
-  canonical S m (norm S m v) = true -> size S m v < two64 ->
+(* An invariant of the decoder: whatever it builds, from ANY byte string, is canonical after
+   normalisation (every slot has the shape and range its descriptor asks for, ids are normalised,
+   at most one member of a oneof group is selected). *)
+Theorem proto_decode_canonical : forall (S : schema), wf_schema S = true ->
+  forall m b v, decode S m b = Some v -> canonical S m (norm S m v) = true.
+Proof. exact decode_canonical_l. Qed.
+Print Assumptions proto_decode_canonical.
+
+(* Fixed point: for whatever decodes, Marshal(Unmarshal(b)) re-decodes, and re-encodes to itself
+   (b1 = encode v; decode b1 = Some v'; encode v' = b1) — for every byte string b.  (The size
+   bound says the re-encoding fits a Go slice.) *)
+Theorem proto_decode_total_fixpoint : forall (S : schema), wf_schema S = true ->
+  forall m b v, decode S m b = Some v -> size S m v < two64 ->
   exists v', decode S m (encode S m v) = Some v' /\ encode S m v' = encode S m v.
-Proof. exact decode_fixpoint_l. Qed.
-Print Assumptions proto_decode_fixpoint_partial.
+Proof. exact proto_decode_fixpoint_l. Qed.
+Print Assumptions proto_decode_total_fixpoint.
 
 (* ---- instance obligations, re-checked against the schema regenerated from the current tree -- *)
 Theorem otlp_schema_wf : wf_schema OtlpSchema = true.
@@ -133,38 +139,28 @@ Print Assumptions json_enum_forms.
 
 (* ---- JSON instance obligations: the decoder table is re-observed on the running decoders and
    these are re-proved on every check run --------------------------------------------------------- *)
-(* covers_partial: the decoder table covers every field of every message reachable from the four
-   request roots, under both spellings of the key and with the readers the property demands,
-   EXCEPT exactly the two recorded defects (Profile.original_payload read raw,
-   ValueType.aggregation_temporality without the name form). *)
-Theorem otlp_json_covers_partial :
-  uncovered OtlpSchema OtlpJsonDecoders OtlpJsonReachable
-  = [(m_profiles_v1development_Profile, 21); (m_profiles_v1development_ValueType, 3)].
-Proof. exact otlp_json_uncovered_l. Qed.
-Print Assumptions otlp_json_covers_partial.
+(* covers: the decoder table covers EVERY field of every message reachable from the four request
+   roots, under both spellings of the key and with the readers the property demands (dual readers
+   for 64-bit integers, number|name for enums, number|string tokens for doubles, base64 for
+   bytes).  A dropped or wrong decoder case makes this obligation fail on the next run. *)
+Theorem otlp_json_covers : covers OtlpSchema OtlpJsonDecoders OtlpJsonReachable = true.
+Proof. exact otlp_json_covers_l. Qed.
+Print Assumptions otlp_json_covers.
 
-Theorem otlp_json_covers_refuted : covers OtlpSchema OtlpJsonDecoders OtlpJsonReachable = false.
-Proof. exact otlp_json_covers_refuted_l. Qed.
-Print Assumptions otlp_json_covers_refuted.
+Theorem otlp_json_uncovered_none : uncovered OtlpSchema OtlpJsonDecoders OtlpJsonReachable = [].
+Proof. exact otlp_json_uncovered_l. Qed.
+Print Assumptions otlp_json_uncovered_none.
 
 Theorem otlp_json_int64_dual : dual64_ok = true.
 Proof. exact otlp_dual64_l. Qed.
 Print Assumptions otlp_json_int64_dual.
 
-Theorem otlp_json_enum_forms_partial : enums_uncovered = [(m_profiles_v1development_ValueType, 3)].
+Theorem otlp_json_enum_forms : enums_uncovered = [].
 Proof. exact otlp_enums_l. Qed.
-Print Assumptions otlp_json_enum_forms_partial.
+Print Assumptions otlp_json_enum_forms.
 
 Theorem otlp_json_roundtrip : forall m v,
   canonical OtlpSchema m v = true -> jok OtlpSchema OtlpJsonDecoders m v = true -> migrate OtlpSchema m v = v ->
   of_json OtlpSchema OtlpJsonDecoders OtlpEnums m (to_json OtlpSchema m v) = Some v.
 Proof. exact (json_roundtrip_l OtlpSchema OtlpJsonDecoders OtlpEnums otlp_schema_wf_l). Qed.
 Print Assumptions otlp_json_roundtrip.
-
-(* the JSON round trip is false of the code on a field the table does not cover (known finding
-   C08-JSON-ORIGINALPAYLOAD): a witness on the real schema and the real decoder table *)
-Theorem json_roundtrip_refuted :
-  exists m v, canonical OtlpSchema m v = true /\ migrate OtlpSchema m v = v
-              /\ of_json OtlpSchema OtlpJsonDecoders OtlpEnums m (to_json OtlpSchema m v) <> Some v.
-Proof. exact json_roundtrip_refuted_l. Qed.
-Print Assumptions json_roundtrip_refuted.
